@@ -585,8 +585,9 @@ pub fn oracle_c05(toks: &[&str]) -> String {
     if t.fin.starts_with("PANIC") || t.fin == "RUNAWAY" {
         return format!("FAIL {}", t.fin);
     }
-    // trace strings are part of the measured heap; bound generously: 64 bytes per input byte + chunk + 256 KiB
-    let bound = 96 * s.data.len() + 4 * s.chunk + (256 << 10);
+    // trace strings are part of the measured heap; bound generously: 96 bytes per input byte + chunk + 8 MiB
+    // (the AIGER parsers pre-allocate at most 2^16 entries per section whatever the header declares)
+    let bound = 96 * s.data.len() + 4 * s.chunk + (8 << 20);
     if peak > bound {
         return format!("FAIL peak heap {peak} bytes for {} input bytes (bound {bound})", s.data.len());
     }
